@@ -1,3 +1,5 @@
+//go:build !no_c04
+
 package props
 
 import (
